@@ -58,7 +58,7 @@ const (
 	vpC36KeySlash2  = "C36/convertrequest-double-slash-target"
 	vpC36KeySynCL   = "C36/convertrequest-synthetic-content-length"
 	vpC36KeySpecial = "C36/convertrequest-special-headers-collapsed"
-	vpC36KeyChunked = "C36/convertrequest-chunked-framing-rewritten"
+	vpC36KeyChunked = "C36/convertrequest-empty-chunked-body-rewritten"
 )
 
 // vpC36Mask lists the single observations that are not compared for a case because they are the
@@ -66,7 +66,7 @@ const (
 type vpC36Mask struct {
 	minor  bool // ProtoMinor (HTTP/1.0 requests)
 	conn10 bool // the "Connection" request header (HTTP/1.0 requests)
-	chunk  bool // chunked requests: the "Content-Length" request header, and the ORDER of repeated values
+	chunk  bool // chunked requests with an empty body: the "Content-Length" request header, and the ORDER of repeated values
 }
 
 // ---------------------------------------------------------------------------------------------
@@ -460,6 +460,7 @@ type vpC36ProgInfo struct {
 	ctAtCommit      int  // number of Content-Type values in the handler's map at the commit point
 	finalCode       int  // status net/http documents for the program (first non-1xx WriteHeader, else 200)
 	emptyVal        bool // some touched header holds an empty value at commit
+	repeated        bool // some header holds two or more values at commit
 }
 
 func vpC36Analyse(p *vpC36Prog, reqBodyLen int) vpC36ProgInfo {
@@ -472,8 +473,10 @@ func vpC36Analyse(p *vpC36Prog, reqBodyLen int) vpC36ProgInfo {
 		if !committed {
 			committed = true
 			in.ctAtCommit = len(h["Content-Type"])
-			for k, vv := range h {
-				_ = k
+			for _, vv := range h {
+				if len(vv) > 1 {
+					in.repeated = true
+				}
 				for _, v := range vv {
 					if strings.TrimSpace(v) == "" {
 						in.emptyVal = true
@@ -540,56 +543,26 @@ func vpC36GenProg(t *rapid.T, excl map[string]bool) *vpC36Prog {
 	noWHLate := vpKnownOpen(vpC36KeyWHLate)
 	noCT304 := vpKnownOpen(vpC36KeyCT304)
 	noMultiCT := vpKnownOpen(vpC36KeyMultiCT)
-	model := http.Header{} // the handler's header map so far (only needed for the 304 steering)
-	n := rapid.IntRange(0, 9).Draw(t, "nops")
+	model := http.Header{} // the handler's header map so far (only needed for the steering below)
 	p := &vpC36Prog{}
 	committed := false  // net/http has committed status+header
 	explicitWH := false // a WriteHeader call has been made (any code)
 	flushed := false
-	for i := 0; i < n; i++ {
-		var kinds []int
-		if committed && noLate {
-			excl[vpC36KeyLate] = true
-		} else {
-			kinds = append(kinds, vpC36OpAdd, vpC36OpAdd, vpC36OpSet, vpC36OpDel)
-		}
-		if committed && !explicitWH && !flushed && noWHLate {
-			excl[vpC36KeyWHLate] = true
-		} else {
-			kinds = append(kinds, vpC36OpWriteHeader)
-		}
-		kinds = append(kinds, vpC36OpWrite, vpC36OpWrite, vpC36OpFlush, vpC36OpEchoBody)
-		k := rapid.SampledFrom(kinds).Draw(t, "kind")
+
+	headerOp := func() vpC36Op {
+		k := rapid.SampledFrom([]int{vpC36OpAdd, vpC36OpAdd, vpC36OpAdd, vpC36OpSet, vpC36OpDel}).Draw(t, "hkind")
 		op := vpC36Op{Kind: k}
-		switch k {
-		case vpC36OpWriteHeader:
-			codes := vpC36Codes
-			if !committed && noInfo {
-				excl[vpC36KeyInfo] = true
-			} else if rapid.IntRange(0, 2).Draw(t, "infocode") == 0 {
-				codes = vpC36InfoCodes
-			}
-			op.Code = rapid.SampledFrom(codes).Draw(t, "code")
-			if op.Code == 304 && !committed && noCT304 && len(model["Content-Type"]) > 0 {
-				// 304 with a handler-set Content-Type is the class of an open finding
-				excl[vpC36KeyCT304] = true
-				op.Code = 303
-			}
-			explicitWH = true
-			if op.Code >= 200 {
-				committed = true
-			}
-		case vpC36OpAdd, vpC36OpSet, vpC36OpDel:
-			op.Name = rapid.SampledFrom(vpC36RespNames).Draw(t, "hname")
-			if k == vpC36OpAdd && noMultiCT && len(model["Content-Type"]) > 0 && http.CanonicalHeaderKey(op.Name) == "Content-Type" {
-				// a second Content-Type value is the class of an open finding
-				excl[vpC36KeyMultiCT] = true
-				k = vpC36OpSet
-				op.Kind = k
-			}
-			if k != vpC36OpDel {
-				op.Val = vpC36GenHeaderValue(t, op.Name, true)
-			}
+		op.Name = rapid.SampledFrom(vpC36RespNames).Draw(t, "hname")
+		if k == vpC36OpAdd && noMultiCT && !committed && len(model["Content-Type"]) > 0 && http.CanonicalHeaderKey(op.Name) == "Content-Type" {
+			// a second Content-Type value is the class of an open finding
+			excl[vpC36KeyMultiCT] = true
+			k = vpC36OpSet
+			op.Kind = k
+		}
+		if k != vpC36OpDel {
+			op.Val = vpC36GenHeaderValue(t, op.Name, true)
+		}
+		if !committed {
 			switch k {
 			case vpC36OpAdd:
 				model.Add(op.Name, op.Val)
@@ -598,16 +571,90 @@ func vpC36GenProg(t *rapid.T, excl map[string]bool) *vpC36Prog {
 			default:
 				model.Del(op.Name)
 			}
-		case vpC36OpWrite:
-			op.Data = vpC36GenData(t)
+		}
+		return op
+	}
+	writeHeaderOp := func() vpC36Op {
+		codes := vpC36Codes
+		if !committed && noInfo {
+			excl[vpC36KeyInfo] = true
+		} else if rapid.IntRange(0, 3).Draw(t, "infocode") == 0 {
+			codes = vpC36InfoCodes
+		}
+		op := vpC36Op{Kind: vpC36OpWriteHeader, Code: rapid.SampledFrom(codes).Draw(t, "code")}
+		if op.Code == 304 && !committed && noCT304 && len(model["Content-Type"]) > 0 {
+			// 304 with a handler-set Content-Type is the class of an open finding
+			excl[vpC36KeyCT304] = true
+			op.Code = 303
+		}
+		explicitWH = true
+		if op.Code >= 200 {
 			committed = true
-		case vpC36OpEchoBody:
-			committed = true
-		case vpC36OpFlush:
-			committed = true
-			flushed = true
+		}
+		return op
+	}
+
+	// Every program is: [header edits and informational WriteHeaders]* , a committing step, [anything]*.
+	// phase 1: before the commit point
+	nPre := rapid.IntRange(0, 5).Draw(t, "npre")
+	for i := 0; i < nPre; i++ {
+		if noInfo {
+			excl[vpC36KeyInfo] = true
+		} else if rapid.IntRange(0, 4).Draw(t, "preinfo") == 0 {
+			p.Ops = append(p.Ops, vpC36Op{Kind: vpC36OpWriteHeader, Code: rapid.SampledFrom(vpC36InfoCodes).Draw(t, "icode")})
+			explicitWH = true
+			continue
+		}
+		p.Ops = append(p.Ops, headerOp())
+	}
+	// phase 2: the committing step (or none: the handler returns without writing)
+	switch rapid.SampledFrom([]int{vpC36OpWriteHeader, vpC36OpWriteHeader, vpC36OpWrite, vpC36OpWrite, vpC36OpEchoBody, vpC36OpFlush, -1}).Draw(t, "commit") {
+	case vpC36OpWriteHeader:
+		op := writeHeaderOp()
+		for op.Code < 200 { // only reachable when informational codes are allowed before the commit
+			p.Ops = append(p.Ops, op)
+			op = writeHeaderOp()
 		}
 		p.Ops = append(p.Ops, op)
+	case vpC36OpWrite:
+		p.Ops = append(p.Ops, vpC36Op{Kind: vpC36OpWrite, Data: vpC36GenData(t)})
+		committed = true
+	case vpC36OpEchoBody:
+		p.Ops = append(p.Ops, vpC36Op{Kind: vpC36OpEchoBody})
+		committed = true
+	case vpC36OpFlush:
+		p.Ops = append(p.Ops, vpC36Op{Kind: vpC36OpFlush})
+		committed, flushed = true, true
+	default:
+		return p
+	}
+	// phase 3: after the commit point
+	nPost := rapid.IntRange(0, 5).Draw(t, "npost")
+	for i := 0; i < nPost; i++ {
+		kinds := []int{vpC36OpWrite, vpC36OpWrite, vpC36OpWrite, vpC36OpFlush, vpC36OpEchoBody}
+		if noLate {
+			excl[vpC36KeyLate] = true
+		} else {
+			kinds = append(kinds, vpC36OpAdd, vpC36OpAdd)
+		}
+		if !explicitWH && !flushed && noWHLate {
+			excl[vpC36KeyWHLate] = true
+		} else {
+			kinds = append(kinds, vpC36OpWriteHeader)
+		}
+		switch rapid.SampledFrom(kinds).Draw(t, "kind") {
+		case vpC36OpWrite:
+			p.Ops = append(p.Ops, vpC36Op{Kind: vpC36OpWrite, Data: vpC36GenData(t)})
+		case vpC36OpFlush:
+			p.Ops = append(p.Ops, vpC36Op{Kind: vpC36OpFlush})
+			flushed = true
+		case vpC36OpEchoBody:
+			p.Ops = append(p.Ops, vpC36Op{Kind: vpC36OpEchoBody})
+		case vpC36OpAdd:
+			p.Ops = append(p.Ops, headerOp())
+		case vpC36OpWriteHeader:
+			p.Ops = append(p.Ops, writeHeaderOp())
+		}
 	}
 	return p
 }
@@ -1021,7 +1068,9 @@ func vpC36ClassOf(in vpC36ProgInfo, req *vpC36Req) string {
 	if in.finalCode == 204 || in.finalCode == 304 {
 		f = append(f, "nobodyStatus")
 	}
-	if len(in.touched) > 0 {
+	if in.repeated {
+		f = append(f, "hdrRepeated")
+	} else if len(in.touched) > 0 {
 		f = append(f, "hdr")
 	}
 	if in.writes > 0 {
@@ -1075,6 +1124,11 @@ func vpC36RawBody(r *vpC36Req, wire, decoded string) *vpC36Req {
 
 func vpC36Probes(e *vpC36Env) {
 	vpC36ProbeOnce.Do(func() {
+		// the 1xx probe ends in a client-side wait when the defect is present; keep that wait short
+		// (a wrongly "present" verdict on an overloaded machine only keeps the class excluded)
+		saved := vpC36SafetyWait
+		vpC36SafetyWait = 3 * time.Second
+		defer func() { vpC36SafetyWait = saved }()
 		get := vpC36RawReq("GET", "/p", "HTTP/1.1", "Host: example.com")
 		run := func(key string, prog *vpC36Prog, req *vpC36Req, pick func(o *vpC36Outcome) string) {
 			o := vpC36RunCase(e, prog, req, vpC36Mask{})
@@ -1102,7 +1156,7 @@ func vpC36Probes(e *vpC36Env) {
 		run(vpC36KeyLate, &vpC36Prog{Ops: []vpC36Op{ok, {Kind: vpC36OpSet, Name: "X-A", Val: "late"}}}, get, resp)
 		run(vpC36KeyWHLate, &vpC36Prog{Ops: []vpC36Op{ok, {Kind: vpC36OpWriteHeader, Code: 404}}}, get, resp)
 		run(vpC36KeyCT304, &vpC36Prog{Ops: []vpC36Op{{Kind: vpC36OpSet, Name: "Content-Type", Val: "text/plain"}, {Kind: vpC36OpWriteHeader, Code: 304}}}, get, resp)
-		run(vpC36KeyChunked, &vpC36Prog{}, vpC36RawBody(vpC36RawReq("POST", "/p", "HTTP/1.1", "Host: example.com", "X-A: 1", "Transfer-Encoding: chunked", "X-A: 2"), "3\r\nabc\r\n0\r\n\r\n", "abc"), reqField(`request header`))
+		run(vpC36KeyChunked, &vpC36Prog{}, vpC36RawBody(vpC36RawReq("POST", "/p", "HTTP/1.1", "Host: example.com", "X-A: 1", "Transfer-Encoding: chunked", "X-A: 2"), "0\r\n\r\n", ""), reqField(`request header`))
 		run(vpC36KeyMultiCT, &vpC36Prog{Ops: []vpC36Op{{Kind: vpC36OpAdd, Name: "Content-Type", Val: "text/plain"}, {Kind: vpC36OpAdd, Name: "Content-Type", Val: "image/png"}, ok}}, get, resp)
 		run(vpC36KeyMinor, &vpC36Prog{}, vpC36RawReq("GET", "/p", "HTTP/1.0", "Host: example.com"), reqField("ProtoMinor"))
 		run(vpC36KeyConn10, &vpC36Prog{}, vpC36RawReq("GET", "/p", "HTTP/1.0", "Host: example.com"), reqField(`request header "Connection"`))
@@ -1130,7 +1184,7 @@ func vpC36MaskFor(req *vpC36Req, excl map[string]bool) vpC36Mask {
 			excl[vpC36KeyConn10] = true
 		}
 	}
-	if req.Chunked && vpKnownOpen(vpC36KeyChunked) {
+	if req.Chunked && len(req.Body) == 0 && vpKnownOpen(vpC36KeyChunked) {
 		m.chunk = true
 		excl[vpC36KeyChunked] = true
 	}
